@@ -334,7 +334,8 @@ def scripts_c10(tier, rng):
             for p in cuts:
                 n2 = f"{name}t{tr}c{p}"
                 tail = ["dir", "open", "st", READALL, "dir"]
-                if tr == 1:
+                if tr == 1 or p in bnd or p == ln:
+                    # (with truncation disabled: only for images without a torn record, which must open)
                     tail += ["vote 1000000 0", "purge 2000000 5000000", "app 2000000,5000001,aa", "flush 1",
                              "widle", "drop", "open", "st", READALL]
                 note = f"note c10 cut {nid} {ln} {','.join(map(str, bnd))} {p} 0 {tr}"
@@ -357,6 +358,11 @@ def scripts_c10(tier, rng):
                 extra = rng.choice(["", "", "", " ms=256", " ms=100 rb=4096", " mr=2 rb=3", " ms=64"])
                 out.append((n2, pre + [note, "dir", f"cfg tr={tr}{extra}", f"fsop zero {nid} {b} {m}", "fsop settle"] + tail))
     return out, {"bases": nb}
+
+
+def nodur(dirline):
+    """A `dir` line without the durable lengths (syncing a file does not modify it)."""
+    return " ".join(":".join(p.split(":")[:2] + p.split(":")[3:]) if ":" in p else p for p in dirline.split())
 
 
 def oracle_c10(script, ig, mg):
@@ -414,9 +420,9 @@ def oracle_c10(script, ig, mg):
         # files untouched
         after = ig[oi + 1].line if oi + 1 < len(ig) else None
         nxt = next((g.line for g in ig[oi + 1:oi + 3] if g.line.startswith("dir ")), None)
-        if before_dir and nxt and before_dir != nxt:
+        if before_dir and nxt and nodur(before_dir) != nodur(nxt):
             return [("refused-open-modified-files", {"before": before_dir, "after": nxt})]
-        if ig[oi].evs:
+        if [e for e in ig[oi].evs if not e.startswith("ev sync ")]:
             return [("refused-open-modified-files", {"events": ig[oi].evs})]
         return []
     if line != "open ok":
@@ -494,8 +500,14 @@ def scripts_c09(tier, rng):
             pick = [positions[rng.below(len(positions))] for _ in range(min(k, len(positions)))]
             pick += [heads[rng.below(len(heads))] for _ in range(min(k, len(heads)))]
             pick += [starts[rng.below(len(starts))] for _ in range(min(k // 2, len(starts)))]
+        headset = set(heads)
         for (fid, p) in pick:
             mask = rng.choice([1, 2, 4, 8, 16, 32, 64, 128, 255, 1])
+            if (fid, p) in headset and rng.chance(1, 2):
+                # layout bytes of a head record with truncation disabled: nothing may be cut
+                out.append((f"{name}f{fid}p{p}m{mask}h{len(out)}",
+                            pre + ["cfg tr=0", f"fsop flip {fid} {p} {rng.choice([64, 128, 255, mask])}", "dir", "open", "st",
+                                   READALL, "dir"]))
             # reopen configurations: truncation disabled, tiny or zero read buffers
             tr = rng.choice([["cfg tr=0"], ["cfg tr=0 rb=3"], ["cfg rb=0"], ["cfg rb=1"], [], [], []])
             out.append((f"{name}f{fid}p{p}m{mask}t{len(out)}",
@@ -629,8 +641,8 @@ def oracle_c09(script, ig, mg):
         return []
     # refused: every chunk file other than the newest is exactly as it was
     if dir_before and dir_after:
-        b = {p.split(":")[0]: p for p in dir_before.split()[1:]}
-        a = {p.split(":")[0]: p for p in dir_after.split()[1:]}
+        b = {p.split(":")[0]: p for p in nodur(dir_before).split()[1:]}
+        a = {p.split(":")[0]: p for p in nodur(dir_after).split()[1:]}
         newest = max(b, key=int) if b else None
         for k in b:
             if k != newest and a.get(k) != b[k]:
